@@ -92,6 +92,11 @@ type ProgLayout struct {
 	// UnorderedChunks lifts the "each track's chunks in increasing order" condition on ChunkOrder: any
 	// permutation of all chunks (the chunk offsets of a track need not increase with the chunk number).
 	UnorderedChunks bool `json:"unordered_chunks,omitempty"`
+	// EmptyChunkAt says which offset is written for a chunk WITHOUT bytes (all its samples are empty); such a
+	// chunk refers to no data, so its offset need not lie inside the mdat: 0 = where the chunk would start,
+	// 1 = file offset 0, 2 = a position in front of the mdat payload, 3 = far beyond the end of the file,
+	// 4 = exactly the end of the file.
+	EmptyChunkAt int `json:"empty_chunk_at,omitempty"`
 }
 
 // ExtraTop returns the bytes of the extra top-level boxes named in kinds.
@@ -351,6 +356,32 @@ func BuildProgressive(tracks []Track, lay ProgLayout) (file []byte, truth *Truth
 		}
 		for i := range tt.ChunkOffset {
 			tt.ChunkOffset[i] += base
+		}
+	}
+	if lay.EmptyChunkAt != 0 {
+		fileLen := uint64(len(ftyp)+len(lead)+len(moov)+mdatHdr+len(payload)) + uint64(len(ExtraTop(lay.Trail)))
+		var at uint64
+		switch lay.EmptyChunkAt {
+		case 1:
+			at = 0
+		case 2:
+			at = 4
+		case 3:
+			at = fileLen + 100000
+		default:
+			at = fileLen
+		}
+		for ti := range truth.Tracks {
+			tt := &truth.Tracks[ti]
+			for ci := range tt.ChunkOffset {
+				if tt.ChunkSize[ci] != 0 {
+					continue
+				}
+				tt.ChunkOffset[ci] = at
+				for k := 0; k < lay.Tracks[ti].ChunkSizes[ci]; k++ {
+					tt.SampleOffset[firstOfChunk[ti][ci]+k] = at
+				}
+			}
 		}
 	}
 	moov2 := buildMoov(tracks, lay, truth)
